@@ -99,6 +99,13 @@ def scenarios(thorough):
     rep_plan = [["provides", "node"], ["provides", "npm"], ["provides", "node"], ["provides", "yarn"], ["provides", "pnpm"], ["requires", "k1"], ["requires", "k2"], ["requires", "k1"], ["requires", "k3"],
                 ["or"], ["provides", "p1"], ["provides", "p2"], ["provides", "p3"], ["provides", "p2"], ["requires_meta", "k2", {"k2": 1}], ["requires_meta", "k2", {"k1": 2}], ["requires", "k3"]]
     out.append({"phase": "detect", "label": "plan-repeated-names", "script": {"detect": {"kind": "pass_plan", "plan": rep_plan}}})
+    # metadata set twice on one Require, both values holding 3-element lists under the same keys
+    out.append({"phase": "detect", "label": "plan-require-metadata-set-twice", "script": {"detect": {"kind": "pass_plan", "plan": [
+        ["requires_meta_n", "k1", {"list": ["k1", "k2", "k3"], "t": {"k1": [1, 2, 3]}}, {"list": ["k3", "p1", "p2"], "t": {"k1": [3, 4, 5], "k2": ["web", "worker", "cron"]}}],
+        ["provides", "k1"]]}}})
+    # one exec.d program name registered twice, from sources below different directories
+    out.append({"phase": "build", "label": "exec-d-name-registered-twice", "script": {"build": {"kind": "pass", "ops": [{"op": "cached", "name": "a", "launch": True}, {"op": "write_exec_d_pairs", "name": "a",
+               "programs": [["prog", "p1"], ["prog", "ALT:p1"], ["other", "ALT:p2"], ["other", "p2"], ["third", "ALT:p3"]]}]}}})
     # several SBOMs of the same format in one call (they target the same file: which one survives
     # must not depend on the process)
     dup_sb = [["cdx", "{\"first\":true}"], ["cdx", "{\"second\":true}"], ["spdx", "{\"s\":1}"], ["spdx", "{\"s\":2}"], ["syft", "{\"y\":1}"], ["cdx", "{\"third\":true}"]]
@@ -160,7 +167,14 @@ def run_one(arg):
         fp = w.p("layers", rel)
         os.makedirs(os.path.dirname(fp), exist_ok=True)
         open(fp, "w").write(content)
-    r = w.run(sc["phase"], script, extra_env={"VERIF_HASH_SEED": str(seed)}, preload=SHIM)
+    # a second source directory whose name sorts before the buildpack directory in one run and
+    # after it in the next (temp paths differ between runs; only their content is an input)
+    alt = w.p("aaa-alt" if seed % 2 else "zzz-alt")
+    os.makedirs(alt)
+    for n in ("p1", "p2", "p3"):
+        open(os.path.join(alt, n), "w").write(f"#!/bin/sh\necho alt-{n}\n")
+        os.chmod(os.path.join(alt, n), 0o755)
+    r = w.run(sc["phase"], script, extra_env={"VERIF_HASH_SEED": str(seed), "VERIF_ALT_SRC": alt}, preload=SHIM)
     snap = snapshot(w.root)
     # outputs only: layers dir and the build plan
     out = {k: v for k, v in snap.items() if k.startswith("layers") or k == "plan.toml"}
